@@ -39,7 +39,9 @@ pub open spec fn wrap(x: int) -> u32 { (x % 0x1_0000_0000) as u32 }
 pub open spec fn acceptable(start: u32, channel_id: u32, chunks: Seq<MessageChunk>) -> bool {
     &&& forall|i: int| 0 <= i < chunks.len() ==> spec_info(#[trigger] chunks[i]) is Some
     &&& seq(chunks[0]) >= start
-    &&& forall|i: int| 0 <= i < chunks.len() ==> seq(#[trigger] chunks[i]) == wrap(seq(chunks[0]) + i)
+    // the numbers of one message do not pass the largest sequence number (since fix a6ae6dbe)
+    &&& seq(chunks[0]) + chunks.len() - 1 <= 0xffff_ffff
+    &&& forall|i: int| 0 <= i < chunks.len() ==> seq(#[trigger] chunks[i]) == seq(chunks[0]) + i
     &&& forall|i: int| 0 <= i < chunks.len() ==> req(#[trigger] chunks[i]) == req(chunks[0])
     &&& channel_id != 0 ==> forall|i: int| 0 <= i < chunks.len() ==> chan(#[trigger] chunks[i]) == channel_id
 }
@@ -50,22 +52,22 @@ SPEC = {
         ensures
             // accepted exactly when the message is acceptable; the result is the sequence number of its last chunk
             (r is Ok) == acceptable(starting_sequence_number, secure_channel.secure_channel_id, chunks@),
-            r is Ok ==> r->Ok_0 == wrap(seq(chunks@[0]) + chunks@.len() - 1) && r->Ok_0 == seq(chunks@[chunks@.len() - 1]),'''),
+            r is Ok ==> r->Ok_0 == seq(chunks@[0]) + chunks@.len() - 1 && r->Ok_0 == seq(chunks@[chunks@.len() - 1]) && r->Ok_0 >= starting_sequence_number,'''),
 }
 
 LEMMAS = '''
-// C12 replay: the transports pass `last accepted + 1` as the next starting number; a message that was accepted (and whose
-// numbers did not wrap around 2^32) is therefore never acceptable again, nor is any message starting at or below its last number
+// C12 replay: the transports pass `last accepted + 1` as the next starting number (and nothing once the numbers are exhausted);
+// a message that was accepted is therefore never acceptable again, nor is any message starting at or below its last number
 proof fn lemma_replay_rejected(start: u32, channel_id: u32, chunks: Seq<MessageChunk>, later: Seq<MessageChunk>)
     requires chunks.len() >= 1, later.len() >= 1, acceptable(start, channel_id, chunks),
-        seq(chunks[0]) + chunks.len() - 1 < 0xffff_ffff,               // no wrap
+        seq(chunks[0]) + chunks.len() - 1 < 0xffff_ffff,               // otherwise the receiver accepts nothing any more (c12_transport)
         spec_info(later[0]) is Some ==> seq(later[0]) <= seq(chunks[0]) + chunks.len() - 1,   // e.g. later == chunks
-    ensures !acceptable(wrap(seq(chunks[0]) + chunks.len() - 1 + 1), channel_id, later),
+    ensures !acceptable((seq(chunks[0]) + chunks.len() - 1 + 1) as u32, channel_id, later),
 {
 }
-// consecutive: within an accepted message the numbers increase by exactly one per chunk (no wrap case)
+// consecutive: within an accepted message the numbers increase by exactly one per chunk
 proof fn lemma_consecutive(start: u32, channel_id: u32, chunks: Seq<MessageChunk>, i: int)
-    requires acceptable(start, channel_id, chunks), 0 <= i, i + 1 < chunks.len(), seq(chunks[0]) + chunks.len() - 1 <= 0xffff_ffff,
+    requires acceptable(start, channel_id, chunks), 0 <= i, i + 1 < chunks.len(),
     ensures seq(chunks[i + 1]) == seq(chunks[i]) + 1,
 {
 }
@@ -92,7 +94,8 @@ def build(manifest):
                     secure_channel_id == secure_channel.secure_channel_id,
                     i > 0 ==> expected_request_id == req(chunks@[0]),
                     forall|k: int| 0 <= k < i ==> spec_info(#[trigger] chunks@[k]) is Some,
-                    forall|k: int| 0 <= k < i ==> seq(#[trigger] chunks@[k]) == wrap(seq(chunks@[0]) + k),
+                    seq(chunks@[0]) + chunks@.len() - 1 <= 0xffff_ffff,
+                    forall|k: int| 0 <= k < i ==> seq(#[trigger] chunks@[k]) == seq(chunks@[0]) + k,
                     forall|k: int| 0 <= k < i ==> req(#[trigger] chunks@[k]) == req(chunks@[0]),
                     secure_channel_id != 0 ==> forall|k: int| 0 <= k < i ==> chan(#[trigger] chunks@[k]) == secure_channel_id,
                 decreases chunks@.len() - i,''')
